@@ -40,11 +40,12 @@ func genC13(t *rapid.T) CaseC13 {
 	return CaseC13{Data: d}
 }
 
-func c13Check(data []byte) *hx.Failure {
+func c13Check(src []byte) *hx.Failure {
+	data, spareIntact := withSpare(src)
 	keep := clone(data)
 	got := gots.ComputeCRC(data)
-	if !bytes.Equal(keep, data) {
-		return hx.Failf("crc-mutates", "ComputeCRC modified its input")
+	if !bytes.Equal(keep, data) || !spareIntact() {
+		return hx.Failf("crc-mutates", "ComputeCRC modified its input (or the spare capacity behind it)")
 	}
 	want := ref.CRC32MPEG2(data)
 	if len(got) != 4 || binary.BigEndian.Uint32(got) != want {
